@@ -66,7 +66,7 @@ def predict(tm, op):
         if len(n) != 1:
             return None
         return close({n[0]} | tm.owned_by_node(n[0]))
-    if o == 'remove_component':
+    if o in ('remove_component', 'remove_storage'):
         n = by_name('NetworkNode', op['node'])
         if len(n) != 1:
             return None
@@ -128,6 +128,8 @@ def applicable_ops(tm, g):
             ops.append({'op': 'remove_node', 'name': nm})
         for c in tm.components(n):
             ops.append({'op': 'remove_component', 'node': nm, 'name': tm.name(c)})
+            if tm.typ(c) == 'Storage':
+                ops.append({'op': 'remove_storage', 'node': nm, 'name': tm.name(c)})
         for sv in tm.services_of(n):
             if t != 'Facility':
                 ops.append({'op': 'remove_node_service', 'node': nm, 'name': tm.name(sv)})
